@@ -118,6 +118,36 @@ theorem C13_threads_fair_schedules (T : Tables) (js : List (Option Bytes × Nat)
     simp only [Option.map_some]
     rw [hN j (List.mem_of_getElem? hj) _ (hfair t hlt)]
 
+/-- The same at **any** granularity.  Let a thread's private state be of any type `L`, and let one
+    atomic step be any function of the shared tables and that private state (a bytecode, a line, a
+    field — whatever the scheduler treats as indivisible).  If such a thread, run alone, can only
+    ever show the constructor's result, then in a pool under any schedule it can only ever show
+    the constructor's result: the premise "a step is a function of (tables, own state)" is all
+    that non-interference needs. -/
+theorem C13_threads_any_granularity {L : Type} (T : Tables) (step : Tables → L → L)
+    (init : Option Bytes × Nat → L) (result : L → Option (Outcome Msg))
+    (alone : ∀ j n r, result (iter (step T) n (init j)) = some r → r = construct T j.1 j.2)
+    (js : List (Option Bytes × Nat)) (sched : List Nat) (t : Nat) (j : Option Bytes × Nat)
+    (hj : js[t]? = some j) (r : Outcome Msg)
+    (h : (gpoolRun (step T) (js.map init) sched)[t]?.bind result = some r) :
+    r = construct T j.1 j.2 := by
+  rw [gpool_get] at h
+  simp only [List.getElem?_map, hj, Option.map_some, Option.bind_some] at h
+  exact alone j _ r h
+
+theorem steps_eq_iter (T : Tables) (n : Nat) (s : TState) : TState.steps T n s = iter (tstep T) n s := by
+  induction n generalizing s with
+  | zero => rfl
+  | succ n ih => simp only [TState.steps, iter]; exact ih _
+
+/-- the premise of `C13_threads_any_granularity` is met by the field-granularity model -/
+example (T : Tables) : ∀ (j : Option Bytes × Nat) n r,
+    TState.result (iter (tstep T) n ((fun j : Option Bytes × Nat => TState.start j.1 j.2) j)) = some r →
+      r = construct T j.1 j.2 := by
+  intro j n r h
+  rw [← steps_eq_iter] at h
+  exact thread_result T j.1 j.2 n r h
+
 /-- the pool never has more or fewer threads, and a step has no access to change the tables
     (`tstep` takes them as an argument and returns only the thread) -/
 theorem C13_threads_pool_size (T : Tables) (js : List (Option Bytes × Nat)) (sched : List Nat) :
